@@ -10,7 +10,7 @@ PROPERTY = "C19"
 RULE = (
     "finite axis = operation x region template: project (all templates with a sufficient rule: hexahedron 8/20/27, "
     "quad 4/8/9, triangle / tetra with order-2 rules, quadratic simplices and MINI with order-5 rules, Lagrange), "
-    "extrapolate (Gauss-Legendre quad / hexahedron regions), topoints (average / mean flags), stress evaluation "
+    "extrapolate (Gauss-Legendre quad / hexahedron regions), topoints (average / mean flags, regions with as many and with more quadrature points than cell points), stress evaluation "
     "(Kirchhoff, Cauchy on 3-D / plane-strain / axisymmetric bodies), ViewSolid / ViewField cell data, boundary force "
     "and moment. Hypothesis draws the mesh (distorted, graded, affine-mapped), nodal field values, arbitrary "
     "quadrature-point data of tensor order 0-2, deformation states and materials. Oracle: nodal values of the "
@@ -223,6 +223,22 @@ def ext_check(kind, case, rec):
         for p in cell:
             acc[p] += cm[:, c]
     rec.close("topoints(mean=True)=cell-means", float(np.abs(tpm - acc / cnt[:, None])[used].max()), 1e-12)
+    # a rule with more points than the cell has nodes (over-integration): documented as "trimmed to the number of points per
+    # cell" - the FIRST points-per-cell columns are shifted to the cell's points, in the order of the connectivity
+    order_hi = {"quad": 2, "hexahedron": 2, "quad9": 3, "hexahedron27": 3}[kind]
+    region_hi = type(region)(mesh, quadrature=fem.GaussLegendre(order=order_hi, dim=dim))
+    w_hi = rng.standard_normal(ts + region_hi.dV.shape)
+    rec.require("over-integrated-rule-has-more-points", w_hi.shape[-2] > ppc, w_hi.shape[-2])
+    wh = w_hi[..., :ppc, :].reshape((size,) + (ppc, mesh.ncells))
+    tph = np.asarray(fem.topoints(w_hi, region_hi)).reshape(len(X), size)
+    acc = np.zeros((len(X), size))
+    for c, cell in enumerate(np.asarray(mesh.cells)):
+        for a, p in enumerate(cell):
+            acc[p] += wh[:, a, c]
+    rec.close("topoints(more-quadrature-points-than-cell-points)=mean-of-the-first-columns", float(np.abs(tph - acc / cnt[:, None])[used].max()), 1e-12)
+    tphd = np.asarray(fem.topoints(w_hi, region_hi, average=False)).reshape(-1, size)
+    refh = np.array([wh[:, a, c] for c in range(mesh.ncells) for a in range(ppc)])
+    rec.close("topoints(more-quadrature-points,average=False)=first-columns", float(np.abs(tphd - refh).max()) if tphd.shape == refh.shape else float("inf"), 0.0)
 
 
 # ---------------------------------------------------------------------------------------------------------------
